@@ -372,7 +372,8 @@ class KnotVector(Intface_KnotVector):
 
         """
         self.shift(-self[0])
-        self.scale(1 / self[-1])
+        umax = self[-1]
+        self.internal = ImmutableKnotVector(knoti / umax for knoti in self)
         return self
 
     def insert(self, nodes: Tuple[float]) -> KnotVector:
